@@ -40,8 +40,11 @@ RULE = ('Packages: {platform default | P; the document defines both, P overrides
         'variable files with global and stage scoped variables (one of them changes the replica count) [thorough: + the '
         'two files in reverse order, + a legacy .conf file]} x {plain | replicated + aggregated} x {no loop | DoWhile '
         'document imported at stage 1 [thorough: + a two-stage DoWhile]} (+ for P x DoWhile x {no, two} user files a '
-        'variant where the P-global and the default-stage blueprint define the same option): 28 packages quick, 68 '
-        'thorough. Every package also carries YAML-fragile literal values (010, yes, 1e3, 0x1F, 12:30:00, null, ~, '
+        'variant where the P-global and the default-stage blueprint define the same option) as package DIRECTORIES with '
+        'real top level folders data/ extra/ special/; plus (no loop) x platform x {no, two [thorough: + one, .conf]} user '
+        'files x {plain, replicated} as a SINGLE FlowIR FILE with a manifest {data: relative source (copied), extra: '
+        '<abs>:copy, special: <abs>:link} - components refer to files under every such folder, on reload the folders '
+        'must be recognised from the instance directory alone: 36 packages quick, 84 thorough. Every package also carries YAML-fragile literal values (010, yes, 1e3, 0x1F, 12:30:00, null, ~, '
         '"a: b", leading blank, unicode, typed int/float/bool/big int), direct references (data/, input/), a key output '
         'and status-report entries. Histories: ALL words of length <=3 over the mutators I = '
         'instantiate_dowhile_next_iteration(store=True), Pa = setOptionForNode(plain node, #command.arguments) + '
@@ -113,11 +116,33 @@ def create(spec, d):
     import experiment.model.data
     import experiment.model.storage
     from verif.gen.pkg import write_package
-    extra = dict(G.extra_files(spec))
-    dw = G.dowhile_document(spec)
-    if dw is not None:
-        extra['conf/dowhile.yaml'] = yaml.safe_dump(dw, sort_keys=False)
-    pp = write_package(G.document(spec), d, extra_files=extra, name='pk')
+    # the folder that `special` links to lives outside the package (absolute link target)
+    outside = os.path.join(d, 'outside')
+    for folder, files in G.FOLDER_FILES.items():
+        os.makedirs(os.path.join(outside, folder))
+        for name, text in files.items():
+            with open(os.path.join(outside, folder, name), 'w') as f:
+                f.write(text)
+    manifest = None
+    if G.layout(spec) == 'file':
+        if G.dowhile_document(spec) is not None:
+            raise HarnessError('single-file packages cannot $import a DoWhile document: %r' % (spec,))
+        src = os.path.join(d, 'source')
+        os.makedirs(os.path.join(src, 'data'))
+        for name, text in G.FOLDER_FILES['data'].items():
+            with open(os.path.join(src, 'data', name), 'w') as f:
+                f.write(text)
+        pp = os.path.join(src, 'pk.yaml')
+        with open(pp, 'w') as f:
+            f.write(yaml.safe_dump(G.document(spec), sort_keys=False))
+        manifest = {'data': 'data', 'extra': os.path.join(outside, 'extra') + ':copy',
+                    'special': os.path.join(outside, 'special') + ':link'}
+    else:
+        extra = dict(G.extra_files(spec))
+        dw = G.dowhile_document(spec)
+        if dw is not None:
+            extra['conf/dowhile.yaml'] = yaml.safe_dump(dw, sort_keys=False)
+        pp = write_package(G.document(spec), d, extra_files=extra, name='pk')
     vfs = []
     for name, content in G.user_variable_files(spec):
         p = os.path.join(d, name)
@@ -132,7 +157,7 @@ def create(spec, d):
         inputs.append(p)
     platform = spec['platform']
     try:
-        pkg = experiment.model.storage.ExperimentPackage.packageFromLocation(pp, platform=platform)
+        pkg = experiment.model.storage.ExperimentPackage.packageFromLocation(pp, platform=platform, manifest=manifest)
         exp = experiment.model.data.Experiment.experimentFromPackage(
             pkg, location=d, platform=platform, variable_files=vfs or None, inputs=inputs, timestamp=False,
             createApplicationLinks=False, createVirtualEnvLinks=False)
